@@ -227,6 +227,13 @@ def extract_fn(repo, spec):
             a = " ".join(a.split())
             if not a and not bind:
                 continue
+            if "$p" in a:
+                # `$p` stands for the closure's own (single identifier) parameter, so that renaming it is harmless
+                ps0 = sc.code.rfind("|", bo, pe - 1)
+                pm = re.match(r"^\s*(?:mut\s+)?(\w+)\s*(?::.*)?$", text[ps0 + 1:pe - 1], re.S)
+                if not pm:
+                    raise vf.Undecided("%s: closure parameter is not a single identifier" % spec["name"])
+                a = a.replace("$p", pm.group(1))
             let = ""
             if bind:
                 # closure parameter *pattern* -> variable + `let PATTERN = variable;` as the first
